@@ -88,12 +88,14 @@ Proof. exact @buffered_exhausted_history. Qed.
 Print Assumptions c14_exhausted_history.
 
 (* Padding: any history that stops at the first exhausted state has handed out
-   prefill ++ source ++ EQ^j with j < capacity ... *)
+   prefill ++ source ++ EQ^j with j < capacity, the padding being exactly what
+   completes the source to whole blocks (so j = (- |source|) mod capacity) ... *)
 Theorem c14_padding : forall (A : Type) (EQ : A) (fuel : nat) (ops : list bop) (u : buffered A),
   2 <= fuel -> Inv (rb u) ->
   exists u' vs, run_until_exhausted EQ fuel u ops = Ok (u', vs) /\
     (is_exhausted u' = true ->
-     exists j, all_frames vs = abs (rb u) ++ src_rest (sig u) ++ repeat EQ j /\ j < max_len (rb u)).
+     exists j r, all_frames vs = abs (rb u) ++ src_rest (sig u) ++ repeat EQ j /\ j < max_len (rb u) /\
+                 length (src_rest (sig u)) + j = max_len (rb u) * r).
 Proof. exact @buffered_padding. Qed.
 Print Assumptions c14_padding.
 
@@ -101,9 +103,10 @@ Print Assumptions c14_padding.
 Theorem c14_drain : forall (A : Type) (EQ : A) (fuel m : nat) (u : buffered A),
   2 <= fuel -> Inv (rb u) ->
   len (rb u) + length (src_rest (sig u)) + max_len (rb u) <= m ->
-  exists u' vs j, run_until_exhausted EQ fuel u (repeat BNext m) = Ok (u', vs) /\
+  exists u' vs j r, run_until_exhausted EQ fuel u (repeat BNext m) = Ok (u', vs) /\
     is_exhausted u' = true /\
-    all_frames vs = abs (rb u) ++ src_rest (sig u) ++ repeat EQ j /\ j < max_len (rb u).
+    all_frames vs = abs (rb u) ++ src_rest (sig u) ++ repeat EQ j /\ j < max_len (rb u) /\
+    length (src_rest (sig u)) + j = max_len (rb u) * r.
 Proof. exact @buffered_drain. Qed.
 Print Assumptions c14_drain.
 
